@@ -131,14 +131,15 @@ Fixpoint prefix_sig (a b : sig) : bool :=
 
 Definition shape_ok (c : mcase) : bool := prefix_sig (explicit_obs c) (o_adv c).
 
-(* every supplied keyword reached the place SigSpec.lands names, with the value given *)
+(* every supplied keyword reached the place SigSpec.lands names, with the value given
+   (whether an overflow keyword is ALSO left as a plain attribute is observed, not judged) *)
 Definition effect_ok (e : ncls * list (name * Z * option Z * option Z)) : bool :=
   let '(n, l) := e in
   forallb (fun q =>
     let '(k, v, oa, oo) := q in
     match lands n k with
     | Some PAttr => optz_eqb oa (Some v)
-    | Some POverflow => optz_eqb oo (Some v) && optz_eqb oa None
+    | Some POverflow => optz_eqb oo (Some v)
     | None => false
     end) l.
 
